@@ -279,8 +279,113 @@ def rule_a(ctx: Context, R: Reporter, f: FuncInfo):
             msg=f"{f.short}: `{unparse(zdefs[0].stmt) if zdefs else None}` is not logsumexp(unnormalised logw) - log(number of samples)", key="evidence-mean")
 
 
+def rule_f(ctx: Context, R: Reporter, f: FuncInfo):
+    """C04.f  orientation (sign x monotonicity along the path from the result to each ingredient): the
+    un-normalised log-weight increases with the numerator term beta_final*logL and with every recorded
+    evidence, decreases with every component's tempered log-likelihood term and batch size and increases
+    with the total count; the evidence increases with the log-weights and decreases with the sample count.
+    A sign error that keeps every dependence and every shift type (`b - log(n_t/N)`, `A + B`,
+    `+ log(size)`) flips one of these orientations."""
+    from ..dataflow import Resolver as _Res
+    from ..mono import path_signs
+
+    flow = flow_of(f.node)
+    rs = _Res(f.node)
+    bfp = f.params[1] if len(f.params) > 1 else "beta_final"
+
+    def txt(e):
+        return norm_text(e)
+
+    def is_hist(e, key):
+        return (isinstance(e, ast.Call) and isinstance(e.func, ast.Attribute) and e.func.attr in ("get_history", "get") and e.args and const_value(e.args[0]) == key) or \
+               (isinstance(e, ast.Subscript) and isinstance(e.value, ast.Attribute) and e.value.attr == "_history" and const_value(e.slice) == key)
+
+    def is_counts(e):
+        # [len(per_iter[t]) for t in ...] (possibly wrapped in np.array)
+        return isinstance(e, ast.ListComp) and isinstance(e.elt, ast.Call) and dotted(e.elt.func) == "len"
+
+    def is_total(e):
+        if isinstance(e, ast.Call) and ((isinstance(e.func, ast.Attribute) and e.func.attr == "sum" and any(is_counts(x) for x in ast.walk(e.func.value))) or
+                                        (dotted(e.func) in ("np.sum", "sum", "numpy.sum") and e.args and any(is_counts(x) for x in ast.walk(e.args[0])))):
+            return True
+        return False
+
+    def sign_of(e):
+        v = const_value(e)
+        if isinstance(v, (int, float)) and not isinstance(v, bool):
+            return 1 if v > 0 else (-1 if v < 0 else 0)
+        t = txt(e)
+        if isinstance(e, ast.Name) and e.id == bfp:
+            return 1
+        if any(is_hist(x, "beta") for x in ast.walk(e)) and not any(isinstance(x, (ast.BinOp, ast.UnaryOp)) for x in ast.walk(e)):
+            return 1
+        if is_counts(e) or is_total(e) or t.endswith(".size") or t.startswith("len("):
+            return 1
+        if isinstance(e, ast.Subscript):
+            return sign_of(e.value)
+        if isinstance(e, ast.Call) and dotted(e.func).split(".")[-1] in ("asarray", "array", "float") and e.args:
+            return sign_of(e.args[0])
+        return None
+
+    # the defining statements of the un-normalised log-weights and of the evidence: found from the return tuple
+    rets = [n for n in flow.cfg.stmt_nodes() if n.kind == "stmt" and isinstance(n.stmt, ast.Return) and isinstance(n.stmt.value, ast.Tuple) and len(n.stmt.value.elts) == 2
+            and all(isinstance(x, ast.Name) for x in n.stmt.value.elts)]
+    if not rets:
+        raise AnalysisError("C04.f: return (logw, logz) by name not found")
+    rn = rets[-1]
+    lw_name, lz_name = (x.id for x in rn.stmt.value.elts)
+    lw_defs = [d for d in flow.reaching(rn, lw_name) if d.kind == "assign" and d.value is not None and lw_name not in {x.id for x in ast.walk(d.value) if isinstance(x, ast.Name)}]
+    lz_defs = [d for d in flow.reaching(rn, lz_name) if d.kind == "assign" and d.value is not None]
+    if len(lw_defs) != 1 or len(lz_defs) != 1:
+        raise AnalysisError(f"C04.f: defining statements of the returned log-weights / evidence not unique ({len(lw_defs)}, {len(lz_defs)})")
+    lw = rs.resolve(lw_defs[0].value, lw_defs[0].node)
+    is_logl = lambda e: is_hist(e, "logl")  # noqa: E731
+
+    def num_term(e):  # logL * beta_final
+        return isinstance(e, ast.BinOp) and isinstance(e.op, ast.Mult) and any(isinstance(x, ast.Name) and x.id == bfp for x in ast.walk(e)) and any(is_logl(x) for x in ast.walk(e))
+
+    def den_term(e):  # logL * beta_t
+        return isinstance(e, ast.BinOp) and isinstance(e.op, ast.Mult) and any(is_hist(x, "beta") for x in ast.walk(e)) and any(is_logl(x) for x in ast.walk(e)) and not num_term(e)
+
+    wants = [
+        ("numerator beta_final*logL", num_term, +1, None),
+        ("component term beta_t*logL", den_term, -1, None),
+        ("recorded evidences logZ_t", lambda e: is_hist(e, "logz"), +1, None),
+        ("batch sizes n_t", is_counts, -1, is_total),
+        ("total count N", is_total, +1, None),
+    ]
+    n = 0
+    for (what, pred, want, opaque) in wants:
+        hits = path_signs(lw, pred, sign_of, opaque)
+        if not hits:
+            raise AnalysisError(f"C04.f: `{what}` not found in the resolved log-weight expression `{unparse(lw)[:80]}`")
+        for (node, sgn, why) in hits:
+            n += 1
+            if sgn is None:
+                raise AnalysisError(f"C04.f: orientation of the log-weight in `{what}` not decidable ({why})")
+            R.check("C04.f", f"the log-weight is {'increasing' if want > 0 else 'decreasing'} in the {what}", sgn == want, f, lw_defs[0].stmt,
+                    msg=f"{f.short}: along `{unparse(lw)[:110]}` the log-weight {'increases' if sgn > 0 else 'decreases'} with the {what} (`{unparse(node)[:40]}`); the balance-heuristic "
+                        f"formula beta*logL - log sum_t (n_t/N) exp(beta_t*logL - logZ_t) requires the opposite", key=f"orientation:{what}")
+    lz = lz_defs[0].value
+    lzr = rs.resolve(lz, lz_defs[0].node, bound={lw_name})
+    for (what, pred, want) in (("log-weights", lambda e: isinstance(e, ast.Name) and e.id == lw_name and not False, +1),
+                               ("sample count", lambda e: (isinstance(e, ast.Attribute) and e.attr == "size") or (isinstance(e, ast.Call) and dotted(e.func) == "len"), -1)):
+        hits = path_signs(lzr, pred, sign_of, (lambda e: isinstance(e, ast.Attribute) and e.attr == "size") if what == "log-weights" else None)
+        if not hits:
+            raise AnalysisError(f"C04.f: `{what}` not found in the evidence expression `{unparse(lzr)[:80]}`")
+        for (node, sgn, why) in hits:
+            n += 1
+            if sgn is None:
+                raise AnalysisError(f"C04.f: orientation of the evidence in the {what} not decidable ({why})")
+            R.check("C04.f", f"the evidence is {'increasing' if want > 0 else 'decreasing'} in the {what}", sgn == want, f, lz_defs[0].stmt,
+                    msg=f"{f.short}: `{unparse(lzr)[:90]}` {'increases' if sgn > 0 else 'decreases'} with the {what}; log of the *mean* un-normalised weight requires the opposite",
+                    key=f"orientation-evidence:{what}")
+    R.floor("C04.f", "oriented occurrences", n, 7)
+
+
 def run(ctx: Context, R: Reporter):
     f = _weights_fn(ctx)
+    R.guard(rule_f, ctx, R, f)
     R.guard(rule_a, ctx, R, f)
     R.guard(rule_b, ctx, R, f)
     R.guard(rule_e, ctx, R, f)
@@ -315,6 +420,12 @@ def variants():
         Variant("d-unique-merge", "bad", insert_after(sm, g, "logz_iter = np.asarray(self.get_history('logz'))", "beta, first = np.unique(beta, return_index=True)\nlogz_iter = logz_iter[first]"), ["C04.d", "ANALYSIS-ERROR"]),
         Variant("d-single-iteration-shortcut", "bad", replace_stmt(sm, g, "B = np.logaddexp.reduce(b_weighted, axis=1)", "if beta.size == 1:\n    B = beta[0] * logl_all\nelse:\n    B = np.logaddexp.reduce(b_weighted, axis=1)"), ["C04.d", "C04.b"], quick=True),
         Variant("b-no-normalisation", "bad", replace_stmt(sm, g, "logw = logw - np.logaddexp.reduce(logw)", "logw = logw - np.max(logw)"), ["C04.b"]),
+        Variant("f-mixture-weight-sign", "bad", replace_expr(sm, g, "b + log_mixture_weights[None, :]", "b - log_mixture_weights[None, :]"), ["C04.f"], quick=True),
+        Variant("f-denominator-added", "bad", replace_stmt(sm, g, "logw = A - B", "logw = A + B"), ["C04.f"], quick=True),
+        Variant("f-logz-sign", "bad", replace_expr(sm, g, "logl_all[:, None] * beta[None, :] - logz_iter[None, :]", "logl_all[:, None] * beta[None, :] + logz_iter[None, :]"), ["C04.f"]),
+        Variant("f-evidence-times-count", "bad", replace_stmt(sm, g, "logz_new = np.logaddexp.reduce(logw) - np.log(logw.size)", "logz_new = np.logaddexp.reduce(logw) + np.log(logw.size)"), ["C04.f"]),
+        Variant("f-mixture-ratio-inverted", "bad", replace_stmt(sm, g, "log_mixture_weights = np.log(n_per_iter) - np.log(N_total)", "log_mixture_weights = np.log(N_total) - np.log(n_per_iter)"), ["C04.f"]),
+        Variant("f-benign-commuted-sum", "benign", replace_expr(sm, g, "b + log_mixture_weights[None, :]", "log_mixture_weights[None, :] + b")),
         Variant("benign-rename-b", "benign", alpha_rename(sm, g, "b_weighted", "comp"), quick=True),
         Variant("benign-inline-A", "benign", replace_stmt(sm, g, "logw = A - B", "logw = beta_final * logl_all - B")),
         Variant("benign-log-ratio", "benign", replace_stmt(sm, g, "log_mixture_weights = np.log(n_per_iter) - np.log(N_total)", "log_mixture_weights = np.log(n_per_iter / N_total)")),
